@@ -154,7 +154,7 @@ func runCorpus(rep *lib.Report) {
 			continue
 		}
 		src := string(srcB)
-		dir := lib.WorkDir(prop, "corpus_"+name)
+		dir := workDir("corpus_"+name)
 		lib.WriteProgram(dir, "vcorpus", map[string]string{"main.go": src})
 		missed := map[int]string{}
 		reported := map[int]bool{}
